@@ -37,7 +37,16 @@ func New(numWorkers ...int) *Worker {
 	return w
 }
 
-const ln3 = 1.098612288668109691395245236922525704647490557822749451734694333 // https://oeis.org/A002391
+// sufficientTrailingZeros returns the smallest number of trailing zeros for which Score is at least targetScore.
+// It evaluates the same expression as Score to be robust against floating point rounding errors.
+// If targetScore is not attainable, a value larger than consts.HashTrinarySize is returned.
+func sufficientTrailingZeros(msgLen int, targetScore float64) uint {
+	zeros := uint(0)
+	for zeros <= consts.HashTrinarySize && math.Pow(consts.TrinaryRadix, float64(zeros))/float64(msgLen) < targetScore {
+		zeros++
+	}
+	return zeros
+}
 
 // Mine performs the PoW for data.
 // It returns a nonce that appended to data results in a PoW score of at least targetScore.
@@ -67,7 +76,7 @@ func (w *Worker) Mine(ctx context.Context, data []byte, targetScore float64) (ui
 	}()
 
 	// compute the minimum numbers of trailing zeros required to get a PoW score ≥ targetScore
-	targetZeros := uint(math.Ceil(math.Log(float64(len(data)+nonceBytes)*targetScore) / ln3))
+	targetZeros := sufficientTrailingZeros(len(data)+nonceBytes, targetScore)
 
 	workerWidth := math.MaxUint64 / uint64(w.numWorkers)
 	for i := 0; i < w.numWorkers; i++ {
